@@ -97,11 +97,16 @@ def run(ctx):
     # unbounded counts / calls / behaviour length (3 processes): inductive invariant of the repaired Open/Close, by Apalache
     vlib.stage_specs(ctx.wd, [])
     obligations = [("Init", "IndInv", 0, "initiation"), ("IndInv", "IndInv", 1, "consecution"), ("IndInv", "Safety", 0, "IndInv => Safety")]
-    walls = [vlib.run_apalache("RefCountInd.tla", ctx.wd, i, v, n) for (i, v, n, _) in obligations]
-    ctx.mc_runs.append({"spec": "RefCountInd.tla", "tool": "Apalache 0.58 (symbolic, SMT)", "kind": "inductive invariant: " + ", ".join(o[3] for o in obligations),
-                        "result": "all obligations discharged: the reference count equals the number of handles owned, never leaves zero, no Open succeeds on a retired snapshot "
-                                  "-- for unbounded counts, calls and behaviour length", "wall_s": round(sum(walls), 1)})
-    log("[M1] RefCountInd.tla: inductive invariant discharged by Apalache (initiation, consecution, implication) in %.0fs" % sum(walls))
+    import shutil
+    if shutil.which("apalache-mc") is None:
+        log("[M1] RefCountInd.tla: apalache-mc is not on PATH, inductive-invariant obligations skipped (the bounded TLC instances below still run)")
+        ctx.mc_runs.append({"spec": "RefCountInd.tla", "tool": "Apalache", "result": "skipped: apalache-mc not on PATH"})
+    else:
+        walls = [vlib.run_apalache("RefCountInd.tla", ctx.wd, i, v, n) for (i, v, n, _) in obligations]
+        ctx.mc_runs.append({"spec": "RefCountInd.tla", "tool": "Apalache 0.58 (symbolic, SMT)", "kind": "inductive invariant: " + ", ".join(o[3] for o in obligations),
+                            "result": "all obligations discharged: the reference count equals the number of handles owned, never leaves zero, no Open succeeds on a retired snapshot "
+                                      "-- for unbounded counts, calls and behaviour length", "wall_s": round(sum(walls), 1)})
+        log("[M1] RefCountInd.tla: inductive invariant discharged by Apalache (initiation, consecution, implication) in %.0fs" % sum(walls))
     cex = []
     for name, text in mcs:
         r = mc(ctx, name, text, timeout=2400)
